@@ -303,20 +303,26 @@ Definition fme (top : ims) (m : marker) : list token :=
 Definition after_pair (top : ims) : ims :=
   match top with ImInside | ImInsideExplicitKey => ImPossible | t => t end.
 
-(* ']' / '}' *)
+(* the state on top of the implicit-mapping stack while the entries of a '[' (seq) / '{' are read *)
+Definition top_ok (seq : bool) (top : ims) : Prop :=
+  if seq then top = ImPossible \/ top = ImInside else top = ImMapping.
+
+(* ']' / '}': the closer matches the level it closes (check_flow_closer, /repo 88700d3) *)
 Lemma close_step F seq b c' cs l n q adj ska p tn m hd2 tls fl tp ta lws top ifr :
-  (1 <= F)%nat -> 0 < fl -> not_ws c' ->
+  (1 <= F)%nat -> 0 < fl -> not_ws c' -> top_ok seq top ->
   fetch_flow_collection_end str_ops F seq (mkst (b :: c' :: cs) l (mk1 n) q adj ska (skey p tn m :: hd2 :: tls) fl tp ta lws (top :: ifr))
   = Ok (tt, mkst (c' :: cs) (Nat.max l 1) (mk1 (n + 1))
               ((q ++ (if seq then fme top (mk1 n) else [])) ++ [(spn (mk1 n) (mk1 (n + 1)), if seq then TFlowSequenceEnd else TFlowMappingEnd)])
               (if 0 <? fl - 1 then n + 1 else adj) false (hd2 :: tls) (fl - 1) tp ta false ifr).
 Proof.
-  intros HF Hfl Hws. destruct (fl_pos_facts fl Hfl) as [Hf0 Hf1].
-  unfold fetch_flow_collection_end, mkst, skey. cbn. rewrite andb_false_r. cbn. rewrite Hf1. cbn.
-  destruct seq; cbn.
-  - destruct top; cbn; (erewrite ws_none; [| reflexivity | exact Hws | exact HF]); cbn;
+  intros HF Hfl Hws Htop. destruct (fl_pos_facts fl Hfl) as [Hf0 Hf1].
+  unfold fetch_flow_collection_end, check_flow_closer, mkst, skey.
+  destruct seq; cbn in Htop.
+  - destruct Htop as [-> | ->]; cbn; rewrite andb_false_r; cbn; rewrite Hf1; cbn;
+      (erewrite ws_none; [| reflexivity | exact Hws | exact HF]); cbn;
       destruct (0 <? fl - 1); cbn; rewrite ?app_nil_r; reflexivity.
-  - (erewrite ws_none; [| reflexivity | exact Hws | exact HF]); cbn.
+  - subst top. cbn. rewrite andb_false_r. cbn. rewrite Hf1. cbn.
+    (erewrite ws_none; [| reflexivity | exact Hws | exact HF]); cbn.
     destruct (0 <? fl - 1); cbn; rewrite ?app_nil_r; reflexivity.
 Qed.
 
@@ -345,23 +351,27 @@ Proof.
 Qed.
 #[local] Arguments insert_token : simpl never.
 
+(* fetch_value (/repo 597a354): only a ':' met in state Possible STARTS the implicit single-pair mapping; Possible and Inside
+   both count as "inside an implicit mapping" for the checks on the key (one line, /repo 57aa316: at most 1024 characters) *)
+Definition starts_ifm (top : ims) : bool := match top with ImPossible => true | _ => false end.
 Definition is_ifm (top : ims) : bool := match top with ImPossible | ImInside => true | _ => false end.
 
 Lemma value_step F cs l n q0 kt adj ska nk tls fl tp ta lws top ifr :
-  0 < fl ->
+  0 < fl -> (is_ifm top = true -> n <= nk + SIMPLE_KEY_MAX) ->
   fetch_value str_ops F (mkst (58 :: 32 :: cs) l (mk1 n) (q0 ++ [kt]) adj ska
                            (skey true (tp + N.of_nat (length q0)) (mk1 nk) :: tls) fl tp ta lws (top :: ifr))
-  = Ok (tt, mkst (32 :: cs) (Nat.max l 1) (mk1 (n + 1))
-              ((q0 ++ (if is_ifm top then [(span_empty (mk1 nk), TFlowMappingStart)] else []) ++ [(span_empty (mk1 nk), TKey); kt])
+  = Ok (tt, mkst (32 :: cs) l (mk1 (n + 1))
+              ((q0 ++ (if starts_ifm top then [(span_empty (mk1 nk), TFlowMappingStart)] else []) ++ [(span_empty (mk1 nk), TKey); kt])
                 ++ [(span_empty (mk1 n), TValue)])
               adj false (skey false (tp + N.of_nat (length q0)) (mk1 nk) :: tls) fl tp ta false
-              ((if is_ifm top then ImInside else top) :: ifr)).
+              ((if starts_ifm top then ImInside else top) :: ifr)).
 Proof.
-  intros Hfl. destruct (fl_pos_facts fl Hfl) as [Hf0 Hf1].
+  intros Hfl Hlim. destruct (fl_pos_facts fl Hfl) as [Hf0 Hf1].
   assert (Hlt : (tp + N.of_nat (length q0) <? tp) = false) by (apply N.ltb_ge; lia).
+  assert (Hk : is_ifm top = true -> (nk + SIMPLE_KEY_MAX <? n) = false) by (intros H; apply N.ltb_ge, Hlim, H).
   unfold fetch_value, mkst, skey.
-  destruct top; cbn; rewrite Hlt; cbn;
-    (erewrite insert_token_app; [| reflexivity]); cbn;
+  destruct top; cbn in Hk; cbn; rewrite Hf0; cbn; rewrite Hlt; cbn;
+    (erewrite insert_token_app; [| reflexivity]); cbn; rewrite ?Hk by reflexivity; cbn;
     try (erewrite insert_token_app; [| reflexivity]); cbn; rewrite ?Hf1, ?Hf0; cbn; rewrite ?Hf1, ?Hf0; cbn; reflexivity.
 Qed.
 
@@ -488,14 +498,14 @@ Proof.
 Qed.
 
 Lemma fnt_close F (seq : bool) c' cs l n q adj ska p tn m hd2 tls fl tp ta lws top ifr :
-  (1 <= F)%nat -> 0 < n -> not_ws c' ->
+  (1 <= F)%nat -> 0 < n -> not_ws c' -> top_ok seq top ->
   exists adj',
   fetch_next_token str_ops F (mkst ((if seq then 93 else 125) :: c' :: cs) l (mk1 n) q adj ska (skey p tn m :: hd2 :: tls) (fl + 1) tp ta lws (top :: ifr))
   = Ok (tt, mkst (c' :: cs) (Nat.max (Nat.max l 4) 1) (mk1 (n + 1))
               ((q ++ (if seq then fme top (mk1 n) else [])) ++ [(spn (mk1 n) (mk1 (n + 1)), if seq then TFlowSequenceEnd else TFlowMappingEnd)])
               adj' false (hd2 :: tls) fl tp ta false ifr).
 Proof.
-  intros HF Hn Hws. assert (Hfl : 0 < fl + 1) by lia.
+  intros HF Hn Hws Htop. assert (Hfl : 0 < fl + 1) by lia.
   exists (if 0 <? fl + 1 - 1 then n + 1 else adj).
   pose proof (fnt_prefix F 0 (if seq then 93 else 125) (c' :: cs) l n q adj ska (skey p tn m :: hd2 :: tls) (fl + 1) tp ta lws (top :: ifr)) as P.
   cbn [repeat app N.of_nat] in P. rewrite N.add_0_r in P.
@@ -521,16 +531,16 @@ Proof.
 Qed.
 
 Lemma fnt_value F cs l n q0 kt adj ska nk tls fl tp ta lws top ifr :
-  (1 <= F)%nat -> 0 < fl -> 0 < n ->
+  (1 <= F)%nat -> 0 < fl -> 0 < n -> (is_ifm top = true -> n <= nk + SIMPLE_KEY_MAX) ->
   fetch_next_token str_ops F (mkst (58 :: 32 :: cs) l (mk1 n) (q0 ++ [kt]) adj ska
                                (skey true (tp + N.of_nat (length q0)) (mk1 nk) :: tls) fl tp ta lws (top :: ifr))
-  = Ok (tt, mkst (32 :: cs) (Nat.max (Nat.max l 4) 1) (mk1 (n + 1))
-              ((q0 ++ (if is_ifm top then [(span_empty (mk1 nk), TFlowMappingStart)] else []) ++ [(span_empty (mk1 nk), TKey); kt])
+  = Ok (tt, mkst (32 :: cs) (Nat.max l 4) (mk1 (n + 1))
+              ((q0 ++ (if starts_ifm top then [(span_empty (mk1 nk), TFlowMappingStart)] else []) ++ [(span_empty (mk1 nk), TKey); kt])
                 ++ [(span_empty (mk1 n), TValue)])
               adj false (skey false (tp + N.of_nat (length q0)) (mk1 nk) :: tls) fl tp ta false
-              ((if is_ifm top then ImInside else top) :: ifr)).
+              ((if starts_ifm top then ImInside else top) :: ifr)).
 Proof.
-  intros HF Hfl Hn.
+  intros HF Hfl Hn Hlim.
   pose proof (fnt_prefix F 0 58 (32 :: cs) l n (q0 ++ [kt]) adj ska (skey true (tp + N.of_nat (length q0)) (mk1 nk) :: tls) fl tp ta lws (top :: ifr)) as P.
   cbn [repeat app N.of_nat] in P. rewrite N.add_0_r in P.
   rewrite P by (try reflexivity; try assumption; lia). rewrite rest_58 by (apply N.eqb_neq; lia).
@@ -603,6 +613,9 @@ Definition entry : Type := (option str * fnode)%type.
 Definition rentry (e : entry) : str := match fst e with Some k => k ++ colon_sp | None => [] end ++ render (snd e).
 Definition ewf (e : entry) : bool := match fst e with Some k => word_ok k | None => true end && fwf (snd e).
 Definition of_pair (p : str * fnode) : entry := (Some (fst p), snd p).
+(* the key of a single pair of a flow sequence is short (YAML 1.2.2 7.4.2; /repo 57aa316) *)
+Definition klim (seq : bool) (e : entry) : Prop :=
+  seq = true -> forall k, fst e = Some k -> N.of_nat (length k) <= SIMPLE_KEY_MAX.
 
 Definition top0 (seq : bool) : ims := if seq then ImPossible else ImMapping.
 Definition etop (seq : bool) (e : entry) : ims :=
@@ -794,12 +807,12 @@ Proof.
   - cbn [length]. lia.
 Qed.
 
-Lemma etop_pair seq : (if is_ifm (top0 seq) then ImInside else top0 seq) = (if seq then ImInside else ImMapping).
+Lemma etop_pair seq : (if starts_ifm (top0 seq) then ImInside else top0 seq) = (if seq then ImInside else ImMapping).
 Proof. destruct seq; reflexivity. Qed.
 Lemma etop_node seq : top0 seq = (if seq then ImPossible else ImMapping).
 Proof. reflexivity. Qed.
 
-Lemma entry_scan seq e : ewf e = true -> NodeScan (snd e) ->
+Lemma entry_scan seq e : ewf e = true -> klim seq e -> NodeScan (snd e) ->
   forall F y rest l n q adj p tn m rs fl tp ta lws ifr,
   (y = 44 \/ y = closer seq) -> 0 < fl -> fl + N.of_nat (depth (snd e)) <= 255 -> 0 < n -> q <> [] -> needy tp rs ->
   (2 * length (rentry e ++ y :: rest) + 4 <= F)%nat ->
@@ -807,7 +820,7 @@ Lemma entry_scan seq e : ewf e = true -> NodeScan (snd e) ->
   scanned F (rentry e ++ y :: rest) y rest l n q adj true (skey p tn m :: rs) fl tp ta lws (top0 seq :: ifr)
      (skey p' tn' m' :: rs) fl (etop seq e :: ifr) (etk' seq e).
 Proof.
-  intros Hwf HN F y rest l n q adj p tn m rs fl tp ta lws ifr Hy Hfl Hd Hn Hq Hnd HF.
+  intros Hwf Hkl HN F y rest l n q adj p tn m rs fl tp ta lws ifr Hy Hfl Hd Hn Hq Hnd HF.
   assert (Hy3 : follow3 y) by (destruct Hy as [->| ->]; [left; reflexivity | destruct seq; [right; left|right;right]; reflexivity]).
   destruct e as [[kw|] v]; unfold ewf, rentry, etop, etk' in *; cbn [fst snd] in *; apply andb_prop in Hwf as [Hk Hv].
   - (* a pair  kw: v *)
@@ -824,13 +837,15 @@ Proof.
     set (n1 := n + N.of_nat 0 + N.of_nat (length (c :: w'))) in *.
     set (kt := (spn (mk1 (n + N.of_nat 0)) (mk1 n1), TScalar Plain (c :: w'))) in *.
     assert (Hn1 : 0 < n1) by (unfold n1; lia).
+    assert (Hlim : is_ifm (top0 seq) = true -> n1 <= n + N.of_nat 0 + SIMPLE_KEY_MAX).
+    { intros Hi. destruct seq; [|discriminate]. specialize (Hkl eq_refl _ eq_refl). unfold n1. lia. }
     pose proof (fnt_value F (repeat 32 0 ++ render v ++ y :: rest) l1 n1 q kt adj false (n + N.of_nat 0) rs fl tp ta false (top0 seq) ifr
-                  ltac:(lia) Hfl Hn1) as E2.
+                  ltac:(lia) Hfl Hn1 Hlim) as E2.
     rewrite etop_pair in E2.
-    set (X := if is_ifm (top0 seq) then [(span_empty (mk1 (n + N.of_nat 0)), TFlowMappingStart)] else []) in *.
+    set (X := if starts_ifm (top0 seq) then [(span_empty (mk1 (n + N.of_nat 0)), TFlowMappingStart)] else []) in *.
     rewrite <- (app_assoc q) in E2.
     set (t1 := (X ++ [(span_empty (mk1 (n + N.of_nat 0)), TKey); kt]) ++ [(span_empty (mk1 n1), TValue)]) in *.
-    destruct (HN F 1%nat y rest (Nat.max (Nat.max l1 4) 1) (n1 + 1) (q ++ t1) adj false
+    destruct (HN F 1%nat y rest (Nat.max l1 4) (n1 + 1) (q ++ t1) adj false
                 false (tp + N.of_nat (length q)) (mk1 (n + N.of_nat 0)) rs fl tp ta false ((if seq then ImInside else ImMapping) :: ifr)
                 Hy3 Hfl Hd ltac:(lia) (app_ne _ _ Hq) Hnd
                 ltac:(cbn [repeat app length]; lia)) as (nk & SC).
@@ -842,7 +857,7 @@ Proof.
       eapply fsteps_one; [apply busy_flow; [apply app_ne, Hq | exact Hfl | apply needy_cons, Hnd] | exact E2].
     + unfold n1. lia.
     + unfold chr in *. cbn [length]. rewrite !app_length. cbn [length]. rewrite ?app_length. cbn [length]. lia.
-    + unfold t1, X. destruct seq; cbn [top0 is_ifm app length]; lia.
+    + unfold t1, X. destruct seq; cbn [top0 starts_ifm app length]; lia.
   - (* a node *)
     cbn [app] in *.
     destruct (HN F 0%nat y rest l n q adj true p tn m rs fl tp ta lws (top0 seq :: ifr) Hy3 Hfl Hd Hn Hq Hnd HF) as (nk & SC).
@@ -850,8 +865,6 @@ Proof.
     rewrite <- etop_node. exact SC.
 Qed.
 
-Definition top_ok (seq : bool) (top : ims) : Prop :=
-  if seq then top = ImPossible \/ top = ImInside else top = ImMapping.
 Lemma top_ok_0 seq : top_ok seq (top0 seq).
 Proof. destruct seq; cbn; auto. Qed.
 Lemma top_ok_e seq e : top_ok seq (etop seq e).
@@ -863,11 +876,11 @@ Proof. destruct seq; cbn; [intros [-> | ->]|intros ->]; reflexivity. Qed.
 Lemma fme_comma seq top m : top_ok seq top -> map snd (fme top m) = fmek top.
 Proof. destruct seq; cbn; [intros [-> | ->]|intros ->]; reflexivity. Qed.
 
-Definition EntOK (fl : N) (e : entry) : Prop :=
-  ewf e = true /\ NodeScan (snd e) /\ fl + N.of_nat (depth (snd e)) <= 255.
+Definition EntOK (seq : bool) (fl : N) (e : entry) : Prop :=
+  ewf e = true /\ klim seq e /\ NodeScan (snd e) /\ fl + N.of_nat (depth (snd e)) <= 255.
 
 (* the entries behind the first one, and the closing bracket *)
-Lemma tail_scan seq es : forall fl, Forall (EntOK (fl + 1)) es ->
+Lemma tail_scan seq es : forall fl, Forall (EntOK seq (fl + 1)) es ->
   forall F y rest l n q adj ska p tn m hd2 tls tp ta lws top ifr,
   not_ws y -> top_ok seq top -> 0 < n -> q <> [] -> needy tp (hd2 :: tls) ->
   (2 * length (rtail es ++ closer seq :: y :: rest) + 4 <= F)%nat ->
@@ -876,7 +889,7 @@ Lemma tail_scan seq es : forall fl, Forall (EntOK (fl + 1)) es ->
 Proof.
   induction es as [|e r IH]; intros fl HF F y rest l n q adj ska p tn m hd2 tls tp ta lws top ifr Hy Htop Hn Hq Hnd Hfuel.
   - cbn [rtail flat_map app tail_toks] in *.
-    destruct (fnt_close F seq y rest l n q adj ska p tn m hd2 tls fl tp ta lws top ifr ltac:(cbn [length] in Hfuel; lia) Hn Hy) as (adj' & E).
+    destruct (fnt_close F seq y rest l n q adj ska p tn m hd2 tls fl tp ta lws top ifr ltac:(cbn [length] in Hfuel; lia) Hn Hy Htop) as (adj' & E).
     rewrite <- (app_assoc q) in E.
     eapply scanned_exp; [|eapply scanned_one; [ | exact E | | | ]].
     + rewrite map_app, (fme_close seq top _ Htop). destruct seq; reflexivity.
@@ -884,7 +897,7 @@ Proof.
     + lia.
     + cbn [length]. lia.
     + rewrite app_length. destruct seq, top; cbn [fme length]; lia.
-  - inversion HF as [|? ? (Hwf & HN & Hd) HF']; subst.
+  - inversion HF as [|? ? (Hwf & Hkl & HN & Hd) HF']; subst.
     cbn [rtail flat_map tail_toks] in *. fold (rtail r) in *.
     assert (Echars : (comma_sp ++ rentry e) ++ rtail r ++ closer seq :: y :: rest
                      = 44 :: 32 :: (rentry e ++ rtail r ++ closer seq :: y :: rest)).
@@ -906,7 +919,7 @@ Proof.
     + cbn [length]. lia.
     + unfold t1. rewrite app_length. destruct top; cbn [fme length]; lia.
     + rewrite Ey in *.
-      destruct (entry_scan seq e Hwf HN F y' rest' (Nat.max (Nat.max l 4) 1) (n + 1 + 1) (q ++ t1) adj false tn m (hd2 :: tls) (fl + 1)
+      destruct (entry_scan seq e Hwf Hkl HN F y' rest' (Nat.max (Nat.max l 4) 1) (n + 1 + 1) (q ++ t1) adj false tn m (hd2 :: tls) (fl + 1)
                   tp ta false ifr Hy' ltac:(lia) Hd ltac:(lia) Hq1 Hnd ltac:(unfold chr in *; lia)) as (p' & tn' & m' & SC).
       eapply scanned_trans; [exact SC|].
       intros l1 n1 adj1 toks1 Hn1 Hm1. rewrite <- Ey.
@@ -923,7 +936,7 @@ Proof.
 Qed.
 
 (* everything between an opening bracket and the token behind the closing one *)
-Lemma body_scan seq es : forall fl, Forall (EntOK (fl + 1)) es ->
+Lemma body_scan seq es : forall fl, Forall (EntOK seq (fl + 1)) es ->
   forall F y rest l n q adj hd2 tls tp ta lws ifr,
   not_ws y -> 0 < n -> q <> [] -> needy tp (hd2 :: tls) ->
   (2 * length (joinc (map rentry es) ++ closer seq :: y :: rest) + 4 <= F)%nat ->
@@ -934,11 +947,11 @@ Proof.
   destruct es as [|e r].
   - pose proof (tail_scan seq [] fl HF F y rest l n q adj true false 0 mk0 hd2 tls tp ta lws (top0 seq) ifr Hy (top_ok_0 seq) Hn Hq Hnd Hfuel) as SC.
     cbn [tail_toks rtail flat_map app map joinc fsep] in *. destruct seq; exact SC.
-  - inversion HF as [|? ? (Hwf & HN & Hd) HF']; subst.
+  - inversion HF as [|? ? (Hwf & Hkl & HN & Hd) HF']; subst.
     rewrite joinc_cons in *. rewrite <- app_assoc in Hfuel |- *.
     destruct (rtail_first seq r (y :: rest)) as (y' & rest' & Ey & Hy').
     rewrite Ey in *.
-    destruct (entry_scan seq e Hwf HN F y' rest' l n q adj false 0 mk0 (hd2 :: tls) (fl + 1) tp ta lws ifr Hy' ltac:(lia) Hd Hn Hq Hnd Hfuel)
+    destruct (entry_scan seq e Hwf Hkl HN F y' rest' l n q adj false 0 mk0 (hd2 :: tls) (fl + 1) tp ta lws ifr Hy' ltac:(lia) Hd Hn Hq Hnd Hfuel)
       as (p' & tn' & m' & SC).
     eapply scanned_exp; [apply tail_toks_spec|].
     eapply scanned_trans; [exact SC|].
@@ -965,7 +978,7 @@ Lemma node_coll (seq : bool) (f : fnode) (es : list entry) :
   render f = opener seq :: joinc (map rentry es) ++ [closer seq] ->
   tokens_of (lt f) = open_tok seq :: fsep (map (etk seq) es) ++ [close_tok seq] ->
   (1 <= depth f)%nat ->
-  (forall fl, fl + N.of_nat (depth f) <= 255 -> Forall (EntOK (fl + 1)) es) ->
+  (forall fl, fl + N.of_nat (depth f) <= 255 -> Forall (EntOK seq (fl + 1)) es) ->
   NodeScan f.
 Proof.
   intros Er Et Hd1 HF F k y rest l n q adj ska p tn m tls fl tp ta lws ifms Hy Hfl Hd Hn Hq Hnd Hfuel.
@@ -1016,22 +1029,38 @@ Section fnode_ind2.
     end.
 End fnode_ind2.
 
+(* an entry of a well-formed '[ ]' / '{ }' *)
+Lemma fs_entry_ok (e : entry) :
+  (match fst e with Some k => key_ok k | None => true end && fwf (snd e)) = true ->
+  ewf e = true /\ klim true e /\ fwf (snd e) = true.
+Proof.
+  intros H. apply andb_prop in H as [Hk Hv]. unfold ewf, klim. destruct e as [[k|] v]; cbn [fst snd] in *.
+  - unfold key_ok in Hk. apply andb_prop in Hk as [Hk Hs]. rewrite Hk, Hv. repeat split; try reflexivity.
+    intros _ k' [= <-]. unfold key_short, key_max in Hs. apply N.leb_le in Hs. exact Hs.
+  - rewrite Hv. repeat split; try reflexivity. intros _ k' [=].
+Qed.
+Lemma fm_entry_ok (p : str * fnode) :
+  (word_ok (fst p) && fwf (snd p)) = true -> ewf (of_pair p) = true /\ klim false (of_pair p) /\ fwf (snd p) = true.
+Proof.
+  intros H. split; [exact H|]. split; [intros [=]|]. apply andb_prop in H as [_ Hv]. exact Hv.
+Qed.
+
 Theorem node_scan : forall f, fwf f = true -> NodeScan f.
 Proof.
   apply (fnode_ind2 (fun f => fwf f = true -> NodeScan f)).
   - intros w Hw. apply node_word, Hw.
   - intros es IH Hw. apply (node_coll true (FS es) es (render_FS es) (tokens_FS es)); [cbn [depth]; lia|].
     intros fl Hd. rewrite Forall_forall in *. intros e He.
-    cbn [fwf] in Hw. rewrite forallb_forall in Hw. specialize (Hw e He).
+    cbn [fwf] in Hw. rewrite forallb_forall in Hw. specialize (Hw e He). destruct (fs_entry_ok e Hw) as (H1 & H2 & Hv).
     pose proof (depth_FS_le es e He) as Hlt.
-    split; [exact Hw|]. split; [|lia].
-    apply IH; [exact He|]. apply andb_prop in Hw as [_ Hv]. exact Hv.
+    split; [exact H1|]. split; [exact H2|]. split; [|lia].
+    apply IH; [exact He|exact Hv].
   - intros ps IH Hw. apply (node_coll false (FM ps) (map of_pair ps) (render_FM ps) (tokens_FM ps)); [cbn [depth]; lia|].
     intros fl Hd. rewrite Forall_forall in *. intros e He. apply in_map_iff in He as (p & <- & Hp).
-    cbn [fwf] in Hw. rewrite forallb_forall in Hw. specialize (Hw p Hp).
-    pose proof (depth_FM_le ps p Hp) as Hlt. unfold EntOK, of_pair, ewf. cbn [fst snd].
-    split; [exact Hw|]. split; [|lia].
-    apply IH; [exact Hp|]. apply andb_prop in Hw as [_ Hv]. exact Hv.
+    cbn [fwf] in Hw. rewrite forallb_forall in Hw. specialize (Hw p Hp). destruct (fm_entry_ok p Hw) as (H1 & H2 & Hv).
+    pose proof (depth_FM_le ps p Hp) as Hlt.
+    split; [exact H1|]. split; [exact H2|]. split; [|unfold of_pair; cbn [snd]; lia].
+    apply IH; [exact Hp|exact Hv].
 Qed.
 
 (* ---------- the top level: stream start, the root collection at column 0, the line break, stream end ---------- *)
@@ -1228,7 +1257,7 @@ Qed.
 Lemma scan_root (seq : bool) (f : fnode) (es : list entry) :
   render f = opener seq :: joinc (map rentry es) ++ [closer seq] ->
   tokens_of (lt f) = open_tok seq :: fsep (map (etk seq) es) ++ [close_tok seq] ->
-  Forall (EntOK (0 + 1)) es ->
+  Forall (EntOK seq (0 + 1)) es ->
   exists toks, scan_str (doc_text f) = (toks, SEnded) /\ map snd toks = wrap false false (tokens_of (lt f)).
 Proof.
   intros Er Et HF.
@@ -1293,9 +1322,10 @@ Proof.
   - cbn [map snd]. rewrite map_app, Hmq. reflexivity.
 Qed.
 
-Lemma entok_root fl es : (forall e, In e es -> ewf e = true /\ fl + N.of_nat (depth (snd e)) <= 255) -> Forall (EntOK fl) es.
+Lemma entok_root seq fl es :
+  (forall e, In e es -> ewf e = true /\ klim seq e /\ fl + N.of_nat (depth (snd e)) <= 255) -> Forall (EntOK seq fl) es.
 Proof.
-  intros H. apply Forall_forall. intros e He. destruct (H e He) as [Hw Hd]. split; [exact Hw|]. split; [|exact Hd].
+  intros H. apply Forall_forall. intros e He. destruct (H e He) as (Hw & Hk & Hd). split; [exact Hw|]. split; [exact Hk|]. split; [|exact Hd].
   apply node_scan. unfold ewf in Hw. apply andb_prop in Hw as [_ Hv]. exact Hv.
 Qed.
 
@@ -1304,11 +1334,82 @@ Theorem scan_flow f : fwf f = true -> is_coll f = true -> (depth f <= 255)%nat -
 Proof.
   intros Hw Hc Hd. destruct f as [w|es|ps]; [discriminate| |].
   - apply (scan_root true (FS es) es (render_FS es) (tokens_FS es)). apply entok_root. intros e He.
-    cbn [fwf] in Hw. rewrite forallb_forall in Hw. split; [exact (Hw e He)|].
+    cbn [fwf] in Hw. rewrite forallb_forall in Hw. destruct (fs_entry_ok e (Hw e He)) as (H1 & H2 & _).
+    split; [exact H1|]. split; [exact H2|].
     pose proof (depth_FS_le es e He). lia.
   - apply (scan_root false (FM ps) (map of_pair ps) (render_FM ps) (tokens_FM ps)). apply entok_root. intros e He.
-    apply in_map_iff in He as (p & <- & Hp). cbn [fwf] in Hw. rewrite forallb_forall in Hw. split; [exact (Hw p Hp)|].
+    apply in_map_iff in He as (p & <- & Hp). cbn [fwf] in Hw. rewrite forallb_forall in Hw.
+    destruct (fm_entry_ok p (Hw p Hp)) as (H1 & H2 & _). split; [exact H1|]. split; [exact H2|].
     pose proof (depth_FM_le ps p Hp). unfold of_pair. cbn [snd]. lia.
+Qed.
+
+(* ---------- the key limit is sharp: an over-long key of a flow-sequence single pair is an error at its ':' ---------- *)
+Lemma value_long F cs l n q0 kt adj ska nk tls fl tp ta lws top ifr :
+  0 < fl -> is_ifm top = true -> nk + SIMPLE_KEY_MAX < n ->
+  fetch_value str_ops F (mkst (58 :: 32 :: cs) l (mk1 n) (q0 ++ [kt]) adj ska
+                           (skey true (tp + N.of_nat (length q0)) (mk1 nk) :: tls) fl tp ta lws (top :: ifr))
+  = Err 98 (mk1 n).
+Proof.
+  intros Hfl Hi Hlong. destruct (fl_pos_facts fl Hfl) as [Hf0 Hf1].
+  assert (Hlt : (tp + N.of_nat (length q0) <? tp) = false) by (apply N.ltb_ge; lia).
+  assert (Hk : (nk + SIMPLE_KEY_MAX <? n) = true) by (apply N.ltb_lt, Hlong).
+  unfold fetch_value, mkst, skey.
+  destruct top; try discriminate; cbn; rewrite Hf0; cbn; rewrite Hlt; cbn;
+    (erewrite insert_token_app; [| reflexivity]); cbn; rewrite Hk; cbn; reflexivity.
+Qed.
+
+Lemma fmt_fetch F fuel s s1 : need_comp s = Ok (true, s) -> fetch_next_token str_ops F s = Ok (tt, s1) ->
+  fetch_more_tokens str_ops F (S fuel) s = fetch_more_tokens str_ops F fuel s1.
+Proof. intros Hn Hf. rewrite fmt_S. cbn. rewrite Hn. cbn. rewrite Hf. reflexivity. Qed.
+Lemma fmt_err F fuel s e m : need_comp s = Ok (true, s) -> fetch_next_token str_ops F s = Err e m ->
+  fetch_more_tokens str_ops F (S fuel) s = Err e m.
+Proof. intros Hn Hf. rewrite fmt_S. cbn. rewrite Hn. cbn. rewrite Hf. reflexivity. Qed.
+
+Lemma next_token_err F (s : sc strin) e m :
+  sc_stream_end s = false -> sc_token_available s = false ->
+  fetch_more_tokens str_ops F F s = Err e m -> next_token str_ops F s = Err e m.
+Proof. intros H1 H2 H3. unfold next_token. cbn. rewrite H1. cbn. rewrite H2. cbn. rewrite H3. reflexivity. Qed.
+
+Theorem scan_long_key k v es : word_ok k = true -> key_short k = false ->
+  scan_str (doc_text (FS ((Some k, v) :: es)))
+  = ([(span_empty (mk1 0), TStreamStart)], SError 98 (mk1 (1 + N.of_nat (length k)))).
+Proof.
+  intros Hk Hlong. destruct (word_first k Hk) as (c & w' & -> & Hcw).
+  unfold key_short, key_max in Hlong. apply N.leb_gt in Hlong.
+  unfold scan_str, doc_text.
+  match goal with |- context [{| si_chars := ?t; si_look := _ |}] =>
+    assert (Etext : exists cs, t = opener true :: c :: w' ++ 58 :: 32 :: cs) end.
+  { cbn [render map fst snd joinc opener]. eexists. cbn [app colon_sp]. rewrite <- !app_assoc. cbn [app]. reflexivity. }
+  destruct Etext as (cs & ->).
+  remember (2 * length (opener true :: c :: w' ++ 58%N :: 32%N :: cs) + 10)%nat as F eqn:HFlen.
+  assert (HF : (2 * length w' + 16 <= F)%nat) by (rewrite HFlen; cbn [length]; rewrite app_length; cbn [length]; lia).
+  assert (Hc : wch c = true) by (cbn [forallb] in Hcw; apply andb_prop in Hcw as [H _]; exact H).
+  set (ot := (spn (mk1 0) (mk1 1), open_tok true)).
+  destruct (fnt_word F 0 c w' 58 (32 :: cs) 4 1 [ot] 0 true false 0 mk0 [root_key] 1 1 false false [top0 true]
+              Hcw ltac:(right; right; right; split; [reflexivity|eexists; reflexivity]) ltac:(lia) ltac:(lia) ltac:(lia) ltac:(lia)) as (l1 & E1).
+  set (n1 := 1 + N.of_nat 0 + N.of_nat (length (c :: w'))) in *.
+  set (kt := (spn (mk1 (1 + N.of_nat 0)) (mk1 n1), TScalar Plain (c :: w'))) in *.
+  set (S1 := mkst (opener true :: c :: w' ++ 58 :: 32 :: cs) 1 (mk1 0) [] 0 true [dummy_key] 0 1 false true []).
+  assert (Hfmt : fetch_more_tokens str_ops F F S1 = Err 98 (mk1 n1)).
+  { destruct F as [|[|[|F3]]]; [lia|lia|lia|]. unfold S1.
+    erewrite fmt_fetch; [ | apply need_empty | apply first_open; [lia | exact (wch_not_ws c Hc)]].
+    erewrite fmt_fetch; [ | | exact E1].
+    2:{ apply busy_flow; [discriminate | lia | reflexivity]. }
+    apply fmt_err; [apply busy_flow; [discriminate | lia | reflexivity]|].
+    pose proof (fnt_prefix (S (S (S F3))) 0 58 (32 :: cs) l1 n1 ([ot] ++ [kt]) 0 false
+                  [skey true (1 + N.of_nat (length [ot])) (mk1 (1 + N.of_nat 0)); root_key] 1 1 false false [top0 true]
+                  ltac:(lia) eq_refl eq_refl ltac:(lia)) as P.
+    etransitivity; [exact P|]. clear P.
+    rewrite rest_58 by (apply N.eqb_neq; unfold n1; lia).
+    replace (mk1 n1) with (mk1 (n1 + N.of_nat 0)) by (f_equal; lia).
+    apply (value_long (S (S (S F3))) cs (Nat.max l1 4) (n1 + N.of_nat 0) [ot] kt 0 false (1 + N.of_nat 0) [root_key] 1 1 false false (top0 true) []);
+      [lia | reflexivity | unfold n1, SIMPLE_KEY_MAX; cbn [length] in Hlong |- *; lia]. }
+  assert (Hnt : next_token str_ops F S1 = Err 98 (mk1 n1)).
+  { apply next_token_err; [reflexivity | reflexivity | exact Hfmt]. }
+  assert (Htot : exists rest, (4 * F + 20 = S (S rest))%nat) by (exists (4 * F + 18)%nat; lia).
+  destruct Htot as (rest & ->).
+  rewrite scan_all_S, (first_token F (opener true :: c :: w' ++ 58 :: 32 :: cs)) by lia. cbv beta iota. fold S1.
+  rewrite scan_all_S, Hnt. cbn [rev app]. replace n1 with (1 + N.of_nat (length (c :: w'))) by (unfold n1; lia). reflexivity.
 Qed.
 
 (* ---------- text -> events: the scanner theorem composed with the parser theorem ---------- *)
